@@ -18,6 +18,7 @@ rm -f $demodir/zz_demo_test.go; git checkout -q -- . ; git clean -fdq
 find . -name zz_verif_contracts.go -delete
 # now against /repo
 cd /verif
+if [ -n "$(git -C /repo status --porcelain)" ]; then echo "SEED: /repo has uncommitted changes, refusing"; exit 2; fi
 git -C /repo apply $seed/patch.diff || { echo "SEED: patch does not apply to /repo"; exit 2; }
 bin/govc check $prop --no-evidence 2>&1 | grep -v "^govc: note" | tail -6
 git -C /repo checkout -- .
